@@ -1,4 +1,5 @@
 \* transaction status (v10) as coded, every schedule (quick)
+\* measured (8 TLC workers shared over 3 runs): 63402 distinct / 268893 generated states, depth 21, 12.0s
 CONSTANTS NSubs = 1 NConn = 1 InitLen = 1 MaxLen = 2 MaxTag = 2 MaxReverts = 1 MaxL1 = 1 MaxPc = 1 MaxTx = 1 MaxGw = 1 MaxRecv = 0 MaxTicks = 1 MaxBack = 3 MaxGot = 6
   Ver = 10 Kinds <- KStatus StartAtL1 <- NoL1 NoLag = FALSE QuietSub = FALSE ReorgPrio = FALSE TeeStage = FALSE Window = FALSE FixL1None = FALSE FixL1Order = FALSE BlockIds <- BidsLatest
 INIT Init
